@@ -13,10 +13,13 @@ that circuit accepts — every surplus element and the first / last element of e
 altered (an input whose alteration leaves the rebuilt circuit accepting is dead);
 (3) the `hidmerge` correspondence: the real `HidingFriPcs::verify_circuit` called directly on
 generated opening structures x hiding-random-openings shapes (mirrored, or with a surplus / missing
-round, matrix or point), answered as which shape check fired.
+round, matrix or point), answered as which shape check fired;
+(4) the `sibcheck` correspondence: the shape loop at the head of the real `verify_fri_circuit` (reached through the PCS's
+`RecursivePcs::verify_circuit`; directly for log-arities beyond the field) on generated per-query (log-arity, sibling count)
+tables — a malformed sibling count must be refused when the verifier circuit is built (repair /repo fc0321f).
 The Lean driver `p3r_driver_c14` evaluates `P3R.Model.Packing` on the same shape lines (5 lines per
 shape) and `P3R.Packing.hidMerge` on the same `hidmerge` lines (1 line each); the answer streams are
-compared line by line.
+compared line by line; likewise `friphase` -> `P3R.Packing.friPhases` and `sibcheck` -> `P3R.Packing.friSibCheck`.
 """
 import json, os
 
@@ -32,6 +35,12 @@ CORRESPONDENCE = ("packing (recursion/src/types/proof.rs, pcs/fri/targets.rs Rec
 CORRESPONDENCE_PHASE = ("FRI query openings verified against their commitments (recursion/src/pcs/fri/verifier.rs verify_fri_circuit: open_input + "
                         "commit-phase loop incl. its log_folded_height == 0 special case, pcs/mmcs.rs cap handling; reached through "
                         "RecursivePcs::verify_circuit, answer read off the graph of the built circuit) vs lean/P3R/Model/FriPhases.lean friPhases")
+
+CORRESPONDENCE_SIB = ("per-query folding data refused at build time (recursion/src/pcs/fri/verifier.rs verify_fri_circuit: schedule entry 0, "
+                      "commit-phase opening count, log_arity vs the first query's schedule, sibling coefficient count == (2^log_arity - 1) * "
+                      "EF::DIMENSION with checked arithmetic; pcs/fri/targets.rs CommitPhaseProofStepTargets::new allocating "
+                      "sibling_values.len() * DIMENSION; reached through RecursivePcs::verify_circuit, and directly for log-arities > 27) "
+                      "vs lean/P3R/Model/Packing.lean friSibCheck")
 
 LINES_PER_CASE = 5
 
@@ -67,9 +76,9 @@ def _read(p):
         return [l.rstrip("\n") for l in fh]
 
 
-def _harness(ctx, out, seed, shapes, corpus, campaign, per_kind, setups="all", label="", op="", merges=0, caps=CAPS_QUICK, phases=0):
+def _harness(ctx, out, seed, shapes, corpus, campaign, per_kind, setups="all", label="", op="", merges=0, caps=CAPS_QUICK, phases=0, sibs=0, sib_huge=0):
     cmd = [ctx["harness"], "packing", "--seed", str(seed), "--shapes", str(shapes), "--out", out,
-           "--campaign", str(campaign), "--per-kind", str(per_kind), "--setups", setups, "--merges", str(merges), "--caps", caps, "--phases", str(phases)]
+           "--campaign", str(campaign), "--per-kind", str(per_kind), "--setups", setups, "--merges", str(merges), "--caps", caps, "--phases", str(phases), "--sibs", str(sibs), "--sib-huge", str(sib_huge)]
     if corpus:
         cmd += ["--corpus", corpus]
     if label:
@@ -97,22 +106,33 @@ def run(ctx):
             json.dump(rp, open(f"{work}/replay_corpus/r.json", "w"))
             runs.append((f"{work}/run0", dict(seed=seed, shapes=0, corpus=f"{work}/replay_corpus", campaign=0, per_kind=0)))
     elif tier == "quick":
-        runs.append((f"{work}/run0", dict(seed=seed, shapes=3000, corpus=f"{ctx['root']}/corpus/c14", campaign=1, per_kind=0, merges=6000, phases=4000)))
+        runs.append((f"{work}/run0", dict(seed=seed, shapes=3000, corpus=f"{ctx['root']}/corpus/c14", campaign=1, per_kind=0, merges=6000, phases=4000, sibs=6000)))
+        # log-arities 28..255 in a process of their own: code that sizes an allocation with 2^log_arity is killed, not failed
+        runs.append((f"{work}/run_huge", dict(seed=seed, shapes=0, corpus=None, campaign=0, per_kind=0, sibs=600, sib_huge=1)))
     else:
         runs.append((f"{work}/run0", dict(seed=seed, shapes=120000, corpus=f"{ctx['root']}/corpus/c14", campaign=1, per_kind=0, merges=400000,
-                                          caps=CAPS_THOROUGH, phases=200000)))
+                                          caps=CAPS_THOROUGH, phases=200000, sibs=300000)))
+        runs.append((f"{work}/run_huge", dict(seed=seed, shapes=0, corpus=None, campaign=0, per_kind=0, sibs=20000, sib_huge=1)))
         for k in range(1, 9):   # the ZK provers are randomised: more proofs, every position each
             runs.append((f"{work}/run{k}", dict(seed=seed + 7919 * k, shapes=0, corpus=None, campaign=1, per_kind=0)))
 
     tot = {"evaluations": 0, "distinct": 0, "inputs": 0, "perturbations": 0, "lines": 0, "disagreements": 0,
-           "merges": 0, "merge_distinct": 0, "shape_perturbations": 0, "shape_followups": 0, "phases": 0, "phase_distinct": 0}
+           "merges": 0, "merge_distinct": 0, "shape_perturbations": 0, "shape_followups": 0, "phases": 0, "phase_distinct": 0,
+           "sibs": 0, "sib_distinct": 0}
     hist, samples, campaign, corpus_notes = {}, [], [], []
-    model_flags = {"validated": 0, "not_validated": 0, "dead_when_validated": 0, "dead_when_not_validated": 0, "wf0": 0}
+    model_flags = {"validated": 0, "not_validated": 0, "dead_when_validated": 0, "dead_when_not_validated": 0, "wf0": 0, "built0": 0,
+                   "dead_when_validated_but_not_built": 0}
     for out, kw in runs:
         cmd, rc, o = _harness(ctx, out, **kw)
         if rc != 0 or not os.path.exists(f"{out}/c14.report.json"):
-            violations.append({"class": "harness-crash", "what": f"harness packing exited {rc}: {o[-300:]}",
-                               "replay": {"cmd": cmd}, "no_input": True})
+            if kw.get("sib_huge"):
+                violations.append({"class": "sibling-count-crash:huge-log-arity",
+                                   "what": f"harness exited {rc} while the real verifier-circuit builder handled FRI proofs with a commit-phase log_arity in "
+                                           f"28..255 (before /repo fc0321f CommitPhaseProofStepTargets::new allocated 2^log_arity targets): {o[-200:]}",
+                                   "replay": {"cmd": cmd}})
+            else:
+                violations.append({"class": "harness-crash", "what": f"harness packing exited {rc}: {o[-300:]}",
+                                   "replay": {"cmd": cmd}, "no_input": True})
             continue
         rep = json.load(open(f"{out}/c14.report.json"))
         for v in rep["violations"]:
@@ -122,6 +142,7 @@ def run(ctx):
         tot["inputs"] += rep["inputs_checked"]; tot["perturbations"] += rep["perturbations"]
         tot["merges"] += rep.get("merge_evaluations", 0); tot["merge_distinct"] += rep.get("merge_distinct", 0)
         tot["phases"] += rep.get("phase_evaluations", 0); tot["phase_distinct"] += rep.get("phase_distinct", 0)
+        tot["sibs"] += rep.get("sib_evaluations", 0); tot["sib_distinct"] += rep.get("sib_distinct", 0)
         tot["shape_perturbations"] += sum(c.get("shape_perturbations", 0) for c in rep["campaign"])
         tot["shape_followups"] += sum(c.get("shape_followup_perturbations", 0) for c in rep["campaign"])
         for k, v in rep["hist"].items():
@@ -160,13 +181,21 @@ def run(ctx):
                 f = dict(x.split("=") for x in b.split()[1:])
                 if f.get("wf") == "0":
                     model_flags["wf0"] += 1
+                if f.get("built") == "0":
+                    model_flags["built0"] += 1
+                if f.get("built") == "1" and f.get("wf") != "1":   # D >= 1 on every driver line
+                    violations.append({"class": "model-self-check",
+                                       "what": f"model: theorem friSibCheck_ok_wf contradicted by evaluation: {b}",
+                                       "replay": {"case_line": cases[k // LINES_PER_CASE]}, "no_input": True})
                 if f.get("validated") == "1":
                     model_flags["validated"] += 1
-                    if f.get("dead") != "0" and f.get("wf") == "1":
+                    if f.get("dead") != "0" and (f.get("wf") == "1" or f.get("built") == "1"):
                         model_flags["dead_when_validated"] += 1
                         violations.append({"class": "model-self-check",
-                                           "what": f"model: theorem no_dead_input contradicted by evaluation: {b}",
+                                           "what": f"model: theorem no_dead_input / no_dead_input_built contradicted by evaluation: {b}",
                                            "replay": {"case_line": cases[k // LINES_PER_CASE]}, "no_input": True})
+                    elif f.get("dead") != "0":
+                        model_flags["dead_when_validated_but_not_built"] += 1   # P3R.Witness.C14.sib_check_needed
                 else:
                     model_flags["not_validated"] += 1
                     if f.get("dead") != "0":
@@ -192,7 +221,8 @@ def run(ctx):
                                        "no_input": True})
         # one-answer-line-per-case correspondences: hidmerge, friphase
         for stem, corr, dead_prefix, dead_thm in (("c14m", CORRESPONDENCE_MERGE, "hidmerge ok-dead", "hidMerge_complete"),
-                                                   ("c14p", CORRESPONDENCE_PHASE, None, None)):
+                                                   ("c14p", CORRESPONDENCE_PHASE, None, None),
+                                                   ("c14s", CORRESPONDENCE_SIB, None, None)):
             if not (os.path.exists(f"{out}/{stem}.cases") and os.path.getsize(f"{out}/{stem}.cases") > 0):
                 continue
             with open(f"{out}/{stem}.cases") as fin:
@@ -219,16 +249,17 @@ def run(ctx):
                                            "replay": {"correspondence": corr, "case_line": mcases[k] if k < len(mcases) else "",
                                                       "impl": a, "model": b},
                                            "no_input": True})
-    cov = {"evaluations": tot["evaluations"] + tot["perturbations"] + tot["merges"] + tot["phases"],
+    cov = {"evaluations": tot["evaluations"] + tot["perturbations"] + tot["merges"] + tot["phases"] + tot["sibs"],
+           "sibcheck_cases": tot["sibs"], "sibcheck_distinct": tot["sib_distinct"],
            "hidmerge_cases": tot["merges"], "hidmerge_distinct": tot["merge_distinct"],
            "friphase_cases": tot["phases"], "friphase_distinct": tot["phase_distinct"],
            "shape_perturbations": tot["shape_perturbations"], "shape_followup_perturbations": tot["shape_followups"],
            "shapes": tot["evaluations"], "inputs_read_back": tot["inputs"], "perturbations": tot["perturbations"],
-           "distinct_nontrivial": tot["distinct"] + tot["merge_distinct"] + tot["phase_distinct"],
+           "distinct_nontrivial": tot["distinct"] + tot["merge_distinct"] + tot["phase_distinct"] + tot["sib_distinct"],
            "rule": "shapes: seeded generator over {uni, batch} x {TwoAdicFriPcs+MerkleTreeMmcs, HidingFriPcs+MerkleTreeMmcs, "
                    "HidingFriPcs+MerkleTreeHidingMmcs (BabyBear, D=4, E=8), TwoAdicFriPcs (Goldilocks, D=2, E=4)}: 1-4 tables, widths 0-5, "
                    "optional next-row / preprocessed / random openings, 0-4 quotient chunks of 0-4 values, cap roots {1,2,4}, 0-3 FRI phases with "
-                   "log-arity 1-3, 0-3 queries, 0-3 batch openings of 0-3 matrices, salts, hiding rounds, lookup terminals, preprocessed "
+                   "log-arity 1-3 (one step in 16 carrying 0-9 siblings instead of 2^log_arity - 1), 0-3 queries, 0-3 batch openings of 0-3 matrices, salts, hiding rounds, lookup terminals, preprocessed "
                    "commitment; distinct = distinct shape lines; every shape allocates, packs, builds and runs a real circuit and every one of its "
                    "inputs is read back (none is trivial). perturbations: every packed position of 7 real proofs (uni / batch x plain / hiding PCS / hiding PCS + salted MMCS, "
                    "+ circuit tables) with single-root commitments, and of the same uni / batch proofs made with a Merkle cap of height 1, 2, 3 (quick; "
@@ -246,7 +277,11 @@ def run(ctx):
                    "log_final_poly_len {0,1,2}, 1-4 phases of log-arity 1-3, cap heights of the input commitment and of every commit-phase commitment "
                    "in {none, whole tree, one below, in between, one too many} or one MMCS cap height clamped per tree, x {TwoAdicFriPcs, HidingFriPcs, "
                    "HidingFriPcs + salted MMCS}: verifier circuit built by the real verify_circuit, per opening 'values / salt reach a Poseidon "
-                   "permutation' read off the circuit graph",
+                   "permutation' read off the circuit graph; "
+                   "sibcheck: 1-3 query proofs over a schedule of 0-4 phases of log-arity 1-5, well-formed (1 in 4) or with 1-2 discrepancies (sibling count "
+                   "+1 / -1 / 0 / that of the next or previous arity / +2..5, a step's log-arity changed, a step dropped or added, a log-arity 0; second family, own process: a log-arity in "
+                   "{28,31,32,33,40,62,63,64,65,128,200,255}) x {TwoAdicFriPcs, HidingFriPcs, HidingFriPcs + salted MMCS}: verifier circuit built by the real "
+                   "verify_circuit (verify_fri_circuit directly when the schedule exceeds the field's two-adicity), answer = which shape check fired",
            "samples": samples[:6], "input_distribution": hist,
            "traces_validated_against_impl": tot["lines"], "disagreements_checked": tot["disagreements"],
            "campaign": campaign, "corpus_notes": corpus_notes, "model_flags": model_flags,
@@ -255,7 +290,7 @@ def run(ctx):
 
 
 CHECK = {
-    "lean_modules": ["P3R.Props.C14", "P3R.Witness.C14", "P3R.Props.C14Merge", "P3R.Witness.C14Merge",
+    "lean_modules": ["P3R.Props.C14Siblings", "P3R.Props.C14", "P3R.Witness.C14", "P3R.Props.C14Merge", "P3R.Witness.C14Merge",
                      "P3R.Props.C14Phases", "P3R.Witness.C14Phases"],
     "lean_exes": ["p3r_driver_c14"],
     "theorems": [
@@ -263,7 +298,12 @@ CHECK = {
         "P3R.C14.lengths_eq_uni", "P3R.C14.lengths_eq_batch", "P3R.C14.flat_lens_total",
         "P3R.C14.packed_position_uni", "P3R.C14.packed_position_batch",
         "P3R.C14.no_dead_input_uni", "P3R.C14.no_dead_input_batch",
-        "P3R.Witness.C14.wf_needed", "P3R.Witness.C14.bad_lengths", "P3R.Witness.C14.pub_aligned_unconditional",
+        "P3R.C14.no_dead_input_uni_coeffs", "P3R.C14.no_dead_input_batch_coeffs",
+        "P3R.C14.no_dead_input_uni_built", "P3R.C14.no_dead_input_batch_built",
+        "P3R.C14.friSibCheck_ok_iff", "P3R.C14.friSibCheck_ok_coeffs", "P3R.C14.friSibCheck_ok_wf", "P3R.C14.malformed_siblings_rejected",
+        "P3R.C14.friSibCheck_ok_schedule", "P3R.C14.friSibCheck_ok_of_wf", "P3R.C14.friSibCheck_large_arity_err",
+        "P3R.Witness.C14.bad_lengths", "P3R.Witness.C14.bad_rejected", "P3R.Witness.C14.bad_rejected'", "P3R.Witness.C14.sib_check_needed",
+        "P3R.Witness.C14.bad_aligned", "P3R.Witness.C14.pub_aligned_unconditional",
         "P3R.C14.hidMerge_complete", "P3R.C14.hidMerge_no_dead_input", "P3R.C14.hidMerge_ok_iff", "P3R.C14.hidMerge_error_of_mismatch",
         "P3R.Witness.C14.points_check_needed", "P3R.Witness.C14.surplus_point_lengths", "P3R.Witness.C14.surplus_point_rejected",
         "P3R.C14.friPhases_eq_replicate", "P3R.C14.friPhases_all_mmcs", "P3R.C14.friPhases_cap_independent", "P3R.C14.stepUsesAt_mmcs",
@@ -278,6 +318,9 @@ CHECK = {
         "reached through the public flattened view, the preprocessed commitment's targets by elimination (last unlabelled public inputs)",
         "hidMerge is a transcription of merge_hiding_random_openings (private fn): tied to the Rust only through the verdict of "
         "HidingFriPcs::verify_circuit (which check fired), and end-to-end by the structural perturbation campaign",
+        "friSibCheck is a transcription of the shape loop at the head of verify_fri_circuit (schedule entry 0 / opening count / log_arity vs "
+        "schedule / sibling coefficient count, checked arithmetic with usize::BITS = 64); tied to the Rust by which InvalidProofShape the real "
+        "verify_circuit returns (message text: 'query q phase k'), for log-arities up to 255",
         "friPhases is a transcription of the commit-phase loop of verify_fri_circuit (control flow only: skip / verify / refuse per phase); tied to "
         "the Rust by reading, per opening of circuits built by the real verify_circuit, whether its values and salt reach a Poseidon permutation",
         "structural perturbation walk (harness/src/c14_campaign.rs ShapeVis / swalk_*): hand-written enumeration of the proof's containers",
@@ -287,9 +330,13 @@ CHECK = {
         "C05/C07/C08/C13/C20 and is observed here only through the perturbation campaign",
     ],
     "assumptions": [
-        "well-formed FRI steps: sibling_values.len() = 2^log_arity - 1 (hypothesis wf of packing_aligned_*; without it the statement is false — "
-        "P3R.Witness.C14.wf_needed — and both verifiers reject: native verify_query by an explicit check, the runner by "
-        "PrivateInputLengthMismatch, replayed from corpus/c14/malformed_siblings.json every run)",
+        "packing_aligned_* / lengths_eq_* / packed_position_*: no hypothesis (the former one, well-formed sibling counts, is gone with /repo "
+        "fc0321f: allocation and packing both read sibling_values.len(); generated shapes include malformed counts)",
+        "no_dead_input_*_built: the verifier's build-time check of the per-query folding data passes (friSibCheck = ok); every other shape — in "
+        "particular every malformed sibling count, P3R.C14.malformed_siblings_rejected — yields InvalidProofShape and no circuit (sibcheck "
+        "correspondence; corpus/c14/malformed_siblings.json replayed every run; structural campaign: sibling push/pop and log_arity +-1 on real "
+        "proofs must be refused by the verifier-circuit builder). no_dead_input_* (hypothesis wf) kept as before. Without either hypothesis the "
+        "statement is false: P3R.Witness.C14.sib_check_needed",
         "no_dead_input: shapes accepted by the verifier's own shape validation (preprocessed openings only with a preprocessed commitment, "
         "lookup terminals only with a permutation commitment); other shapes yield InvalidProofShape and no circuit",
         "commit-phase steps: the block stepUses (siblings and salts of every phase) of pcsUses is justified by friPhases_eq_replicate for "
@@ -323,17 +370,21 @@ MANIFEST_ENTRY = {
                  "structural (one container grown / shrunk, circuit rebuilt) perturbation of real proofs against the native verifier, on proofs "
                  "with single-root commitments and with Merkle caps of height 1-8 on both MMCSs; Lean model of the FRI commit-phase loop "
                  "(which openings are verified against their commitment, as a function of FRI parameters, folding schedule and cap heights) "
-                 "compared with the graph of circuits built by the real verify_circuit; static dataflow oracles on every verifier circuit",
+                 "compared with the graph of circuits built by the real verify_circuit; Lean model of the shape loop at the head of "
+                 "verify_fri_circuit (sibling counts, schedule) compared with the refusal of the real builder; static dataflow oracles on every "
+                 "verifier circuit",
     "level_claimed": {
         "category": "proof",
         "text": "for every proof shape (tables, widths, optional openings, chunks, cap heights, FRI phases and arities, queries, batch "
                 "openings, salts, hiding random openings, lookup terminals, preprocessed commitment, D, E): packed public / private vectors = "
                 "public / private allocations in order, lengths = public_flat_len / private_flat_len, and every allocated input is consumed by "
-                "the verifier model; under well-formed sibling counts (negation without it proved on a witness and replayed). Tied to the Rust "
+                "the verifier model for every shape whose verifier circuit gets built (a malformed sibling count is refused at build time: "
+                "malformed_siblings_rejected, replayed; without the build check surplus siblings are dead: sib_check_needed). Tied to the Rust "
                 "by line-exact comparison of allocation traces and packed label sequences obtained from sentinel-filled proofs through the real "
                 "allocate / pack / build / run, and by perturbing every packed position of real proofs (native rejects <=> runner fails); "
                 "for every folding schedule and every cap height, with log_blowup + log_final_poly_len >= 1, every commit-phase opening is "
-                "hashed and compared with its commitment (friPhases_eq_replicate), tied to the Rust by the friphase correspondence",
+                "hashed and compared with its commitment (friPhases_eq_replicate), tied to the Rust by the friphase correspondence; the build-time "
+                "refusal of malformed per-query folding data is tied to the Rust by the sibcheck correspondence",
         "design_ref": "4/C14",
     },
     "level_note": "Lean kernel + 3 standard axioms; label distinctness checked at run time, not proved; consumption model is block-level; "
